@@ -82,6 +82,7 @@ def _(gene, profile, cn_configs, max_cn, region_coverage, solver, debug, fusion_
           solver="str", debug="Optional[str]", fusion_support="Optional[Dict[str, float]]")
     requires(max_cn >= 1, len(gene.regions) >= 1, len(gene.unique_regions) > 0)
     requires("PSEUDO" not in cn_configs)
+    requires(forall(lambda c=str: implies(c in gene.cn_configs, len(c) > 0)))   # configuration names are non-empty
     # candidate configurations are (copies of) catalogue configurations with one table per gene copy
     requires(forall(lambda c=str: implies(c in cn_configs, c in gene.cn_configs and len(cn_configs[c].cn) == len(gene.regions)
                                           and cn_configs[c].kind == gene.cn_configs[c].kind)))
@@ -119,11 +120,40 @@ def _(gene, profile, cn_configs, max_cn, region_coverage, solver, debug, fusion_
             k = (d0 if d0 >= d1 else d1) + 1
             gene_fit = 0.0 + sum(slot_cn(gene, cn_configs, s[0], s[1], 0, r) * newvar_at("CN_{}_{}", s[0], s[1])
                                  for s in slots if r in cn_configs[gene.deletion_allele() if s[0] == "PSEUDO" else s[0]].cn[0])
-            diff_fit = 0.0 + sum((slot_cn(gene, cn_configs, s[0], s[1], 0, r)
-                                  - (slot_cn(gene, cn_configs, s[0], s[1], 1, r) if len(gene.regions) > 1 else 0))
-                                 * newvar_at("CN_{}_{}", s[0], s[1])
-                                 for s in slots if r in cn_configs[gene.deletion_allele() if s[0] == "PSEUDO" else s[0]].cn[0])
+            # (gene copies - pseudogene copies) per slot; written as a difference of two sums (linearity of finite sums)
+            diff_fit = (0.0 + sum(slot_cn(gene, cn_configs, s[0], s[1], 0, r) * newvar_at("CN_{}_{}", s[0], s[1])
+                                  for s in slots if r in cn_configs[gene.deletion_allele() if s[0] == "PSEUDO" else s[0]].cn[0])
+                        + (0.0 + sum((0 - slot_cn(gene, cn_configs, s[0], s[1], 1, r) * newvar_at("CN_{}_{}", s[0], s[1]))
+                                     for s in slots if len(gene.regions) > 1
+                                     and r in cn_configs[gene.deletion_allele() if s[0] == "PSEUDO" else s[0]].cn[1])))
             family("CG_COV_{}", gene_fit + eg <= d0)
             family("CG_COV_{}", gene_fit + eg >= d0)
             family("C_COV_{}", diff_fit / k + e <= (d0 - d1) / k)
             family("C_COV_{}", diff_fit / k + e >= (d0 - d1) / k)
+    # absolute-value helper variables of the two error families (contract of abssum)
+    for r in region_coverage:
+        if r in gene.unique_regions:
+            e = newvar_at("E_{}", r)
+            a = newvar(None, None, 0, lp_inf(), f"ABS_{lp_name(e)}")
+            family("CABSL_{}", a + e >= 0)
+            family("CABSR_{}", a - e >= 0)
+    for r in region_coverage:
+        if r in gene.unique_regions:
+            eg = newvar_at("EG_{}", r)
+            a = newvar(None, None, 0, lp_inf(), f"ABS_{lp_name(eg)}")
+            family("CABSL_{}", a + eg >= 0)
+            family("CABSR_{}", a - eg >= 0)
+    # objective (C03): normalised depth-fit error (the PCE region weighted by cn_pce_penalty), gene-fit error,
+    # parsimony penalty per used slot with surcharges for fusions
+    base_pen = 10.0 / nreg * 0.75
+    lp_setobjective(None,
+                    (profile.cn_diff / nreg) * (0.0 + sum((profile.cn_pce_penalty if lp_name(newvar_at("E_{}", r)) == "E_pce" else 1)
+                                                          * newvar_at("ABS_{}", lp_name(newvar_at("E_{}", r)))
+                                                          for r in region_coverage if r in gene.unique_regions))
+                    + (profile.cn_fit / nreg) * (0.0 + sum(newvar_at("ABS_{}", lp_name(newvar_at("EG_{}", r)))
+                                                           for r in region_coverage if r in gene.unique_regions))
+                    + profile.cn_parsimony * (0.0 + sum(
+                        (base_pen
+                         + (base_pen * profile.cn_fusion_right if (s[0] in gene.cn_configs and gene.cn_configs[s[0]].kind == CNConfigType.RIGHT_FUSION) else 0)
+                         + (base_pen * profile.cn_fusion_left if (s[0] in gene.cn_configs and gene.cn_configs[s[0]].kind == CNConfigType.LEFT_FUSION) else 0))
+                        * newvar_at("CN_{}_{}", s[0], s[1]) for s in slots)))
